@@ -168,6 +168,9 @@ func Plan(sql string, env physical.Environment) (plan physical.Node, mapping map
 	return plan, mapping, oo, res
 }
 
+// OnRecord, when set, observes every record at the final produce callback (index in emission order) - used by trace recording.
+var OnRecord func(i int, rec execution.Record)
+
 // Run executes the query like `octosql -o json` would and returns the records in emission order.
 func Run(sql string, tables map[string]*Table, optimize bool) (res Result) {
 	defer func() {
@@ -251,6 +254,9 @@ func Run(sql string, tables map[string]*Table, optimize bool) (res Result) {
 	}
 	res.Fields = fields
 	err = exec.Run(execution.ExecutionContext{Context: ctx}, func(pctx execution.ProduceContext, rec execution.Record) error {
+		if OnRecord != nil {
+			OnRecord(len(res.Records), rec)
+		}
 		vs := make([]octosql.Value, len(rec.Values))
 		copy(vs, rec.Values)
 		res.Records = append(res.Records, execution.NewRecord(vs, rec.Retraction, rec.EventTime))
